@@ -2,6 +2,7 @@ package rules
 
 import (
 	"go/token"
+	"go/types"
 	"sort"
 	"strings"
 
@@ -9,6 +10,101 @@ import (
 
 	"verif/sa/internal/core"
 )
+
+// runFDPositional (C42 FD-POSITIONAL): an external command inherits port n as
+// its file descriptor n. The file table handed to os.StartProcess is
+// therefore a slice made with one slot per port (make([]*os.File,
+// len(fm.ports))) and filled by position; a table built with append drops the
+// slots of unset ports and shifts every later descriptor down (`cmd 5>file`
+// would reach the child as fd 3).
+func runFDPositional(p *core.Program, r *core.Report) {
+	const rule = "FD-POSITIONAL"
+	n := 0
+	for _, fn := range p.FnsInPkg(pkgEval) {
+		core.Instrs(fn, func(ins ssa.Instruction) {
+			st, ok := ins.(*ssa.Store)
+			if !ok {
+				return
+			}
+			fa, ok := st.Addr.(*ssa.FieldAddr)
+			if !ok {
+				return
+			}
+			nt, f := core.FieldName(fa)
+			if nt == nil || nt.Obj().Name() != "ProcAttr" || f != "Files" {
+				return
+			}
+			n++
+			construct := core.FnKey(fn) + " gives the child process one file slot per port"
+			bad := ""
+			seen := map[ssa.Value]bool{}
+			var check func(v ssa.Value, depth int)
+			check = func(v ssa.Value, depth int) {
+				if v == nil || seen[v] || bad != "" || depth > 4 {
+					return
+				}
+				seen[v] = true
+				switch x := v.(type) {
+				case *ssa.MakeSlice:
+					// the length is len(<a port table>): fm.ports itself, or a
+					// parameter / local of type []*Port holding it
+					la := lenArg(x.Len)
+					ok := false
+					if la != nil {
+						if sl, isSl := la.Type().Underlying().(*types.Slice); isSl {
+							if ptr, isPtr := sl.Elem().(*types.Pointer); isPtr && core.IsNamed(ptr.Elem(), pkgEval, "Port") {
+								ok = true
+							}
+						}
+					}
+					if !ok {
+						bad = "the table is made with a length other than len(fm.ports)"
+					}
+				case *ssa.Phi:
+					for _, e := range x.Edges {
+						check(e, depth)
+					}
+				case *ssa.Slice:
+					check(x.X, depth)
+				case *ssa.Call:
+					if b, isB := x.Call.Value.(*ssa.Builtin); isB && b.Name() == "append" {
+						bad = "the table is built with append, which has no slot for a port that is not set"
+						return
+					}
+					callee := x.Call.StaticCallee()
+					if callee == nil || callee.Blocks == nil || core.PkgPathOf(callee) != pkgEval {
+						bad = "the table comes from " + addrDesc(x)
+						return
+					}
+					core.Instrs(callee, func(i2 ssa.Instruction) {
+						if ret, ok := i2.(*ssa.Return); ok && len(ret.Results) >= 1 {
+							check(ret.Results[0], depth+1)
+						}
+					})
+				case *ssa.UnOp:
+					if a, isA := x.X.(*ssa.Alloc); isA && x.Op == token.MUL {
+						for _, ref := range *a.Referrers() {
+							if s2, ok := ref.(*ssa.Store); ok && s2.Addr == ssa.Value(a) {
+								check(s2.Val, depth)
+							}
+						}
+						return
+					}
+					bad = "the table comes from " + addrDesc(x)
+				default:
+					bad = "the table comes from " + addrDesc(v)
+				}
+			}
+			check(st.Val, 0)
+			if bad == "" {
+				r.OK(rule, construct, p.InsPos(ins), "ProcAttr.Files is make([]*os.File, len(fm.ports)), filled by position")
+			} else {
+				r.Bad(rule, construct, p.InsPos(ins), bad+": the child's descriptor numbers no longer match the redirections (`cmd 5>file` with fds 3 and 4 unset reaches the child as fd 3, and data meant for one file lands in another)")
+			}
+		})
+	}
+	r.Count(rule+" file tables handed to os.StartProcess", n)
+}
 
 // runFDValidity (C42 FD-VALID): whether a redirection raises "invalid fd" is
 // decided by the number alone and by whether the port table has an entry at
